@@ -52,6 +52,17 @@ def specs(tier):
                 idx = len(out)
                 invs = [(idx >> i) & 1 for i in range(len(classes))] if tier == "thorough" else [1 if i == 0 else 0 for i in range(len(classes))]
                 out.append({"shape": shape, "kind": kind, "name": "m", "members": list(combo), "invs": invs, "inits": [None] * len(classes)})
+    # invariants with mixed check_on (ALL + CALL) on the classes of chains and two-base hierarchies
+    for shape in ("chain2", "chain3", "two_bases"):
+        classes = SHAPES[shape]
+        for combo in itertools.product([None, (0, 0), (1, 1)], repeat=len(classes)):
+            if combo[0] is None:
+                continue
+            for invs in itertools.product([0, 1], repeat=len(classes)):
+                if not any(invs):
+                    continue
+                out.append({"shape": shape, "kind": "method", "name": "m", "members": list(combo), "invs": list(invs),
+                            "inits": [None] * len(classes), "inv_mode": "AC"})
     # special member names (only the meta-class, or object, provides them)
     for name in NAMES[1:]:
         for shape in ("single", "chain2", "two_bases"):
@@ -105,7 +116,13 @@ def render(spec):
             w.append("class E_{0}(Exception): pass\ndef {0}(result):\n    LOG.append(('post', '{0}'))\n    return _truth('{0}')\n".format(n))
         if inv:
             w.append("class E_v_{0}(Exception): pass\ndef v_{0}(self):\n    LOG.append(('inv', 'v_{0}'))\n    return _truth('v_{0}')\n".format(cls))
-            w.append("@icontract.invariant(v_{0}, error=E_v_{0})\n".format(cls))
+            if spec.get("inv_mode") == "AC":
+                # two invariants on the class: one checked on ALL events, one on CALL only
+                w.append("class E_w_{0}(Exception): pass\ndef w_{0}(self):\n    LOG.append(('inv', 'w_{0}'))\n    return _truth('w_{0}')\n".format(cls))
+                w.append("@icontract.invariant(w_{0}, error=E_w_{0}, check_on=icontract.InvariantCheckEvent.CALL)\n".format(cls))
+                w.append("@icontract.invariant(v_{0}, error=E_v_{0}, check_on=icontract.InvariantCheckEvent.ALL)\n".format(cls))
+            else:
+                w.append("@icontract.invariant(v_{0}, error=E_v_{0})\n".format(cls))
         w.append("class {}({}):\n".format(cls, ", ".join(bases) if bases else "icontract.DBC"))
         body = []
         if iopt is not None or not bases:
@@ -196,7 +213,8 @@ class Ref:
         return self._eff[c]
 
     def invariants(self, c):
-        return {"v_" + k for k in self.mro[c] if self.inv[k]}
+        pre = ("v_", "w_") if self.spec.get("inv_mode") == "AC" else ("v_",)
+        return {p + k for k in self.mro[c] if self.inv[k] for p in pre}
 
     def init_contracts(self, c):
         for k in self.mro[c]:
@@ -231,7 +249,7 @@ def feats(spec, cls=None, extra=None):
     f = {"shape": spec["shape"], "kind": spec["kind"], "name": spec["name"],
          "members": "/".join("-" if m is None else "{}{}".format(*m) for m in spec["members"]),
          "inits": "/".join("-" if m is None else "{}{}".format(*m) for m in spec["inits"]),
-         "invs": "".join(str(i) for i in spec["invs"]), "on": cls}
+         "invs": "".join(str(i) for i in spec["invs"]), "on": cls, "inv_mode": spec.get("inv_mode", "C")}
     if extra:
         f.update(extra)
     return f
